@@ -108,7 +108,7 @@ def gen_plan(seed, tier="quick", variant=None):
     nrules = rng.choice([0, 1, 2, 4, 8])
     for _ in range(nrules):
         k = rng.randint(0, nreq + 3)
-        kind = rng.choice(["late", "dup", "unknown", "other", "silent", "silent", "oversize", "close", "reset", "swap"])
+        kind = rng.choice(["late", "dup", "unknown", "other", "silent", "silent", "oversize", "close", "reset", "swap", "runt"])
         acts = []
         if kind == "late":
             acts = [{"a": "reply", "delay": round(rng.random() * horizon * 2, 6)}]
@@ -120,6 +120,11 @@ def gen_plan(seed, tier="quick", variant=None):
         elif kind == "other":
             # a frame bearing the id of some *other* request (maybe live, maybe cancelled, maybe done)
             acts = [{"a": "reply", "id": rng.choice(ids), "delay": round(rng.random() * 0.01, 6)}]
+            if rng.random() < 0.5:
+                acts.append({"a": "reply", "delay": round(rng.random() * 0.02, 6)})
+        elif kind == "runt":
+            # 0-3 bytes: no room for a correlation id.  Read carelessly they are the id of some request.
+            acts = [{"a": "runt", "n": rng.choice([0, 1, 2, 3, 3]), "id": rng.choice(ids), "delay": round(rng.random() * 0.005, 6)}]
             if rng.random() < 0.5:
                 acts.append({"a": "reply", "delay": round(rng.random() * 0.02, 6)})
         elif kind == "silent":
@@ -308,9 +313,11 @@ class RefBrokerClient(object):
             self.failures = 0
             self._attempt(now)
 
-    def frames_delivered(self, cid, frames, oversize):
+    def frames_delivered(self, cid, frames, oversize, runt=False):
         self.steps.extend(("frame", cid, f) for f in frames)
-        if oversize:
+        if runt:
+            self.steps.append(("runt", cid))
+        elif oversize:
             self.steps.append(("oversize", cid))
 
     def advance(self, until=None, only=None):
@@ -329,6 +336,8 @@ class RefBrokerClient(object):
                     done = rid
             elif kind == "oversize":
                 self.disconnecting = True
+            elif kind == "runt":
+                pass  # the receive path fails on it: the transport drops the connection (env_client_lost follows)
             elif kind == "send":
                 rid = st[1]
                 entry = self.table.get(rid)
@@ -413,6 +422,8 @@ class WirePeer(object):
                 self.sim.after(act.get("delay", 0.0), self.reply, conn, act.get("id", None), rid)
             elif a == "oversize":
                 self.sim.after(act.get("delay", 0.0), self.oversize, conn, act["len"])
+            elif a == "runt":
+                self.sim.after(act.get("delay", 0.0), self.runt, conn, act["n"], act["id"])
             elif a == "close":
                 self.sim.after(act.get("delay", 0.0), conn.close)
             elif a == "reset":
@@ -423,6 +434,11 @@ class WirePeer(object):
             rid = own
         self.reply_seq += 1
         body = struct.pack(">i", rid) + b"R" + struct.pack(">I", self.reply_seq) + b"x" * (self.reply_seq % 23)
+        conn.send(struct.pack(">I", len(body)) + body)
+
+    def runt(self, conn, n, rid):
+        self.net.fault("runt_frame")
+        body = struct.pack(">i", rid)[4 - n:] if n else b""
         conn.send(struct.pack(">I", len(body)) + body)
 
     def oversize(self, conn, ln):
@@ -616,14 +632,23 @@ def _run_bc(plan):
             buf += data
             frames, used, over = frames_of(buf)
             del buf[:used]
-            model.frames_delivered(conn.cid, frames, over)
-            if over:
+            runt = False
+            for i_, f_ in enumerate(frames):
+                if len(f_) < 4:
+                    frames, runt = frames[:i_], True
+                    break
+            model.frames_delivered(conn.cid, frames, over and not runt, runt)
+            if runt:
+                state["stopped"].add(conn.cid)
+                state.setdefault("runted", set()).add(conn.cid)
+                res.probe("runt_frame_seen_by_client")
+            elif over:
                 state["stopped"].add(conn.cid)
                 res.probe("oversize_seen_by_client")
         else:
             state["in_data"] -= 1
             model.advance()
-            if conn.cid in state["stopped"] and not conn.transport.disconnecting:
+            if conn.cid in state["stopped"] and conn.cid not in state.get("runted", ()) and not conn.transport.disconnecting:
                 res.violate("C06", "C06:impossible-length-not-terminated",
                             "frame announcing an impossible length did not terminate the connection", sim)
 
